@@ -1123,6 +1123,10 @@ func runL4(args []string) {
 		}
 		process(&c)
 	} else {
+		// directed (round 13): a closed Iterator stays closed while other retrievals run
+		for _, w := range iterAfterClose() {
+			rep.addHolds("C14", Finding{Case: map[string]any{"directed": "closed Iterator touched while and after other retrievals of its Statement"}, Kind: "holds", Detail: w})
+		}
 		for i := 0; i < *n; i++ {
 			if hangCount >= maxHangs {
 				rep.Notes = append(rep.Notes, fmt.Sprintf("stopped after %d of %d cases: %d operations hung", i, *n, hangCount))
